@@ -70,9 +70,11 @@ func doAclCheck(method string, path string, token *jwt.Token, core *security.Ser
 	}
 
 	// get the method
-	action := "read"
-	if method == "DELETE" || method == "POST" {
-		action = "write"
+	// every state-changing method needs write. (PUT and PATCH used to be treated as read,
+	// so a read-only client could rename a dataset)
+	action := "write"
+	if method == "GET" || method == "HEAD" || method == "OPTIONS" {
+		action = "read"
 	}
 
 	for _, ac := range acl {
